@@ -64,10 +64,12 @@ KIND = {
     'datetimes': F.binop('*', F.var('vd'), F.var('NULL')),
     'blankminusdate': F.binop('-', F.var('NULL'), F.var('vd')),
     'dateminus': F.binop('-', F.var('vd'), N('1')),
+    # values whose printed form is enormous (whatever debug output does with them, the outcome is the same)
+    'bigvalue': F.binop('>', F.num('2^20000'), N('1')),
     # a sheet whose cells hold formulas: the cell listener evaluates another formula on the same parser, for every cell
     'sheet': F.binop('*', F.call('SUM', F.cell('A1'), F.binop('+', F.cell('$A$1'), F.cell('a1'))), N('2')),
 }
-PROBES = [KIND['dateplus'], KIND['blankminusdate'], KIND['datetimes'], KIND['dateminus'], KIND['ok'], KIND['okcells'], KIND['cellexc'], KIND['rangeexc'], KIND['fnlistenerexc'], KIND['trapped'], KIND['divzero'], KIND['unknownvar'], KIND['syntax'],
+PROBES = [KIND['bigvalue'], KIND['dateplus'], KIND['blankminusdate'], KIND['datetimes'], KIND['dateminus'], KIND['ok'], KIND['okcells'], KIND['cellexc'], KIND['rangeexc'], KIND['fnlistenerexc'], KIND['trapped'], KIND['divzero'], KIND['unknownvar'], KIND['syntax'],
           F.binop('&', F.var('vb'), F.call('K')), F.call('SUM', F.var('vl'), F.cell('B2')), KIND['xlraise']]
 
 
